@@ -919,6 +919,9 @@ def oracle_C03(run):
             continue
         c = conn_of(op)
         L = led.setdefault(c, OutLedger())
+        # C03_conn_window_every_history: whatever came before, the connection's window is a window
+        if obs.get('snap_after') and not (0 <= obs['snap_after']['out_win'] <= MAX31):
+            out.append(fail('connection-window-out-of-range', i, lib=obs['snap_after']['out_win']))
         if L.tainted:
             continue
         snap_b, snap_a = obs['snap_before'], obs['snap_after']
